@@ -388,7 +388,8 @@ Definition mp4_save_new (f : list Z) (atoms : list mp4_atom) (ilst_data : list Z
       let f1 := splice f offset 0 data in
       match mp4_update_parents (zlen data) f1 (map ma_off path) with
       | Raise e => Raise e
-      | Ok f2 => mp4_update_offsets atoms (zlen data) offset f2
+      (* everything at or behind the insertion point has moved *)
+      | Ok f2 => mp4_update_offsets atoms (zlen data) (offset - 1) f2
       end
     end
   end.
